@@ -341,8 +341,9 @@ static void neuro_learn(int wset, int const *sets, int const *fdbs, int n)
     {
         double o = (double)a_pid_neuro_inc(&ctx, (a_real)(sets[i] / 2.0), (a_real)(fdbs[i] / 2.0));
         double w[3] = {(double)ctx.wp, (double)ctx.wi, (double)ctx.wd};
-        if (!(fabs(o) <= 4) || !(fabs(w[0]) < 60) || !(fabs(w[1]) < 60) || !(fabs(w[2]) < 60)) { inrange = 0; }
-        fprintf(f, "%s{\"e2\":%d,\"u\":%ld,\"w\":[%ld,%ld,%ld]}", i ? "," : "", sets[i] - fdbs[i], inrange ? lround(o * 256) : 0,
+        if (!(fabs(w[0]) < 60) || !(fabs(w[1]) < 60) || !(fabs(w[2]) < 60)) { inrange = 0; }
+        /* the output is logged in any case (clipped to +-100 for the integer code; not finite = 30000): the limits are judged always */
+        fprintf(f, "%s{\"e2\":%d,\"u\":%ld,\"w\":[%ld,%ld,%ld]}", i ? "," : "", sets[i] - fdbs[i], !isfinite(o) ? 30000L : lround((o > 100 ? 100 : o < -100 ? -100 : o) * 256),
                 inrange ? lround(w[0] * 256) : 0, inrange ? lround(w[1] * 256) : 0, inrange ? lround(w[2] * 256) : 0);
     }
     fprintf(f, "],\"inrange\":%d}\n", inrange);
